@@ -93,7 +93,7 @@ func interleaved(c sessCase) bool {
 			if !ann[s.C] && c.Conns[s.C].SameAs < 0 {
 				ann[s.C], open[s.C] = true, true
 			}
-		case "eof":
+		case "eof", "sclose", "race":
 			open[s.C] = false
 		case "data":
 			if open[s.C] && s.N > 0 {
@@ -266,13 +266,47 @@ func genSession(rt *rapid.T, maxSteps int) sessCase {
 	}
 	nsteps := rapid.IntRange(1, maxSteps).Draw(rt, "nsteps")
 	usedUDP := map[int]bool{}
+	// both-ends-close windows are expensive (the agent stays away until the listener's
+	// sender is stuck): few sessions have them, and those at most twice
+	races := 0
+	if rapid.IntRange(0, raceOneIn-1).Draw(rt, "races") == raceOneIn/2 { // rapid favours the ends of a range, not its middle
+		races = rapid.IntRange(1, 2).Draw(rt, "nraces")
+	}
 	for len(c.Steps) < nsteps {
 		op := rapid.SampledFrom([]string{
 			"hello", "hello", "hello",
 			"data", "data", "data", "data", "data", "data", "data", "data", "data", "data",
 			"eof", "eof", "swrite", "swrite", "udp", "unk-data", "unk-eof", "ping", "sync", "anydata", "anyeof",
+			"sclose", "race", "race",
 		}).Draw(rt, "op")
 		switch op {
+		case "sclose":
+			// the service closes on its own; what the agent says about this id later
+			// (data, end-of-stream) is drawn like for any other closed connection
+			i := pick("c", func(i int) bool { return open[i] && !grouped[i] })
+			if i < 0 {
+				continue
+			}
+			open[i] = false
+			c.Steps = append(c.Steps, step{Op: "sclose", C: i})
+		case "race":
+			if races == 0 {
+				continue
+			}
+			x := pick("c", func(i int) bool { return open[i] && !grouped[i] })
+			if x < 0 {
+				continue
+			}
+			y := pick("y", func(i int) bool { return i != x && open[i] && !grouped[i] })
+			if y < 0 {
+				continue
+			}
+			races--
+			if rapid.IntRange(0, 3).Draw(rt, "presync") > 0 {
+				c.Steps = append(c.Steps, step{Op: "sync", C: -1})
+			}
+			open[x] = false
+			c.Steps = append(c.Steps, step{Op: "race", C: x, Y: y, Variant: rapid.IntRange(0, 1).Draw(rt, "order")})
 		case "hello":
 			if i := pick("c", func(i int) bool { return !ann[i] }); i >= 0 {
 				ann[i], open[i] = true, true
@@ -395,7 +429,11 @@ func replaySession(t *testing.T, r *vlib.Run, name string) bool {
 	return true
 }
 
-const sessRule = "session: real agent listener behind server.Run on loopback, scripted agent over libdisco Noise_NK; 1..4 connection ids (+ optionally one re-used/duplicate id), IPv4/IPv6, remote ports 0..65535, <=20 data messages of 0..4000 bytes per connection, eof, service-side writes (0..60000 bytes, greeting at accept), UDP relays with 0..2 replies, unknown ids (swapped / neighbouring / never announced / after eof), ping, mid-session sync points, final agent disconnect; record segmentation: as the real agent (type|size|body), one record per frame, arbitrary chunk plans; interleaving drawn by rapid; oracle = per-connection byte queue each way; non-trivial = two connections each carry data while both are open"
+// raceOneIn: about one in so many (fewer: the middle of a range is drawn less often than
+// its ends) rapid sessions may contain both-ends-close windows.
+const raceOneIn = 50
+
+const sessRule = "session: real agent listener behind server.Run on loopback, scripted agent over libdisco Noise_NK; 1..4 connection ids (+ optionally one re-used/duplicate id), IPv4/IPv6, remote ports 0..65535, <=20 data messages of 0..4000 bytes per connection, eof, service-side writes (0..60000 bytes, greeting at accept), service-side close (the service ends a connection on its own; afterwards it must have read a prefix of what was sent), both-ends-close windows in a few of every thousand sessions (the agent stops reading, another connection's service writes until the listener's sender is stuck, then the service's close and the agent's end-of-stream for one connection overlap in either order, then the agent reads again; the other connections must go on relaying), UDP relays with 0..2 replies, unknown ids (swapped / neighbouring / never announced / after eof), ping, mid-session sync points, final agent disconnect; record segmentation: as the real agent (type|size|body), one record per frame, arbitrary chunk plans; interleaving drawn by rapid; oracle = per-connection byte queue each way; non-trivial = two connections each carry data while both are open"
 
 // identCase: two connections whose address pairs stand in one of the confusable
 // relations, played with a fixed interleaved script.
@@ -529,6 +567,7 @@ func TestSessionModel(t *testing.T) {
 			r.Fail(rt, "TestSessionModel", c, "%v", err)
 		}
 	})
+	raceNotes(r)
 	if err := getInfra(); err != nil {
 		t.Fatalf("%v", err)
 	}
@@ -621,6 +660,148 @@ func TestSessionBursts(t *testing.T) {
 			r.Fail(rt, "TestSessionBursts", p, "%v", err)
 		}
 	})
+	if err := getInfra(); err != nil {
+		t.Fatalf("%v", err)
+	}
+}
+
+// bothCloseParams describes a session around both-ends-close windows: N connections are
+// opened and carry data; in every round the service of one of them closes it while the
+// agent's end-of-stream for the same connection is under way and the (slow) agent is
+// not reading; afterwards every other connection must relay in both directions as if
+// nothing had happened, and new connections must still be surfaced.
+type bothCloseParams struct {
+	Conns      int    `json:"conns"`       // 2..4
+	Rounds     int    `json:"rounds"`      // 1..Conns-1 windows, each on another connection
+	CloseFirst []bool `json:"close_first"` // per round: the service's close is issued before the agent's end-of-stream
+	Before     []int  `json:"before"`      // data message sizes sent on every open connection before a window
+	After      []int  `json:"after"`       // ... and after it
+	PreSync    bool   `json:"presync"`     // wait until the services have read everything before the window
+	Late       bool   `json:"late"`        // the agent sends more data for the closed id afterwards (must go nowhere)
+	Reopen     bool   `json:"reopen"`      // a new connection is announced after each window
+	Disc       bool   `json:"end_by_disconnect"`
+	ReadBuf    int    `json:"readbuf"`
+	Seg        string `json:"seg"`
+	Reuse      bool   `json:"reuse"`
+}
+
+func (p bothCloseParams) session() sessCase {
+	c := sessCase{Seg: p.Seg}
+	if c.Seg == "chunks" {
+		c.Chunks = []int{70000}
+	}
+	add := func() int {
+		i := len(c.Conns)
+		c.Conns = append(c.Conns, connSpec{V6: i%3 == 1, LOct: i % len(octets), ROct: (i + 3) % len(octets), LPort: i % len(tcpPorts), RPort: 40000 + i, ReadBuf: p.ReadBuf, SameAs: -1, Greeting: 5 * (i % 2), Reuse: p.Reuse})
+		c.Steps = append(c.Steps, step{Op: "hello", C: i})
+		return i
+	}
+	var open []int
+	for i := 0; i < p.Conns; i++ {
+		open = append(open, add())
+	}
+	traffic := func(sizes []int) {
+		for _, n := range sizes {
+			for _, i := range open {
+				c.Steps = append(c.Steps, step{Op: "data", C: i, N: n})
+			}
+		}
+		for _, i := range open {
+			c.Steps = append(c.Steps, step{Op: "swrite", C: i, N: 11 + i})
+		}
+	}
+	c.Steps = append(c.Steps, step{Op: "sync", C: -1})
+	for rd := 0; rd < p.Rounds && len(open) >= 2; rd++ {
+		traffic(p.Before)
+		if p.PreSync {
+			c.Steps = append(c.Steps, step{Op: "sync", C: -1})
+		}
+		x, y := open[0], open[1+rd%(len(open)-1)]
+		v := 1
+		if rd < len(p.CloseFirst) && p.CloseFirst[rd] {
+			v = 0
+		}
+		c.Steps = append(c.Steps, step{Op: "race", C: x, Y: y, Variant: v})
+		open = open[1:]
+		if p.Late {
+			c.Steps = append(c.Steps, step{Op: "data", C: x, N: 33})
+		}
+		if p.Reopen {
+			open = append(open, add())
+		}
+		traffic(p.After)
+		c.Steps = append(c.Steps, step{Op: "sync", C: -1})
+	}
+	if !p.Disc {
+		for _, i := range open {
+			c.Steps = append(c.Steps, step{Op: "eof", C: i})
+		}
+	}
+	return c
+}
+
+// raceNotes reports how many both-ends-close windows were played since the last call
+// and in how many of them the listener's sender was stuck when the two closes went out.
+func raceNotes(r *vlib.Run) {
+	w, st, b := raceWindows.Swap(0), raceStalled.Swap(0), raceBlocks.Swap(0)
+	if w > 0 {
+		r.Label("race/windows", w)
+		r.Label("race/windows-with-stuck-sender", st)
+		r.Label("race/fill-blocks", b)
+	}
+	if n := closeErrs.Swap(0); n > 0 {
+		r.Note("%d service-side Close calls returned an error or panicked (not judged)", n)
+	}
+}
+
+// TestSessionBothClose: the service and the agent end the same connection at the same
+// time while other connections of the session are open.
+func TestSessionBothClose(t *testing.T) {
+	r := vlib.Open(prop)
+	if sessionViolated.Load() && !vlib.Replaying() {
+		t.Skip("a session violation was already reported by this process")
+	}
+	var bp bothCloseParams
+	if vlib.ReplayCase("TestSessionBothClose", &bp) {
+		if err := checkSession(r, bp.session()); err != nil {
+			if strings.HasPrefix(err.Error(), "infra:") {
+				t.Fatalf("%v", err)
+			}
+			r.Violation(t, "TestSessionBothClose", bp, err.Error())
+		}
+		return
+	}
+	r.Rule("bothclose: 2..4 connections open and carrying data; 1..3 windows per session in which the agent stops reading, the service of another connection writes 60000-byte blocks until the listener's sender is stuck, and then the service of one connection closes it while the agent's end-of-stream for that connection arrives (either one issued first), after which the agent reads again; before / after each window data in both directions on every other connection, optionally late data for the closed id and a newly announced connection; end by end-of-stream or disconnect; oracle = the session model (every other connection keeps relaying, nothing ends early, the session survives); all non-trivial (at least two connections carry data while open)")
+	r.Rapid(t, "TestSessionBothClose", r.Pick(8, 60), func(rt *rapid.T) {
+		if getInfra() != nil {
+			return
+		}
+		p := bothCloseParams{
+			Conns:   rapid.IntRange(2, 4).Draw(rt, "conns"),
+			Before:  rapid.SliceOfN(rapid.OneOf(rapid.IntRange(1, 64), rapid.IntRange(1, 4000)), 1, 3).Draw(rt, "before"),
+			After:   rapid.SliceOfN(rapid.OneOf(rapid.IntRange(1, 64), rapid.IntRange(1, 4000)), 1, 3).Draw(rt, "after"),
+			PreSync: rapid.IntRange(0, 3).Draw(rt, "presync") > 0,
+			Late:    rapid.Bool().Draw(rt, "late"),
+			Reopen:  rapid.Bool().Draw(rt, "reopen"),
+			Disc:    rapid.Bool().Draw(rt, "disc"),
+			ReadBuf: rapid.SampledFrom([]int{700, 64, 4096, 65536}).Draw(rt, "readbuf"),
+			Seg:     rapid.SampledFrom([]string{"frame3", "frame1", "chunks"}).Draw(rt, "seg"),
+			Reuse:   rapid.Bool().Draw(rt, "reuse"),
+		}
+		p.Rounds = rapid.IntRange(1, p.Conns-1).Draw(rt, "rounds")
+		p.CloseFirst = rapid.SliceOfN(rapid.Bool(), p.Rounds, p.Rounds).Draw(rt, "close_first")
+		c := p.session()
+		r.Case(fmt.Sprintf("bothclose/conns=%d/rounds=%d", p.Conns, p.Rounds), vlib.JSON(p), func() interface{} { return p })
+		opLabels(r, c)
+		if err := checkSession(r, c); err != nil {
+			if strings.HasPrefix(err.Error(), "infra:") {
+				setInfra(err)
+				return
+			}
+			r.Fail(rt, "TestSessionBothClose", p, "%v", err)
+		}
+	})
+	raceNotes(r)
 	if err := getInfra(); err != nil {
 		t.Fatalf("%v", err)
 	}
